@@ -672,15 +672,16 @@ Definition sess_fsm_only (fl : flags) (s : sess) (c' : ipcp_cfg) (r : list act *
   let (ad, op) := fold_left (on_act fl (s_peer s)) a (s_addr s, s_open s) in
   (mksess (s_owner s) c' st' (s_peer s) ad op (next_req c' a (s_lastreq s)) (s_dns s), a).
 
-(* onLCPDown.  PPPoE: FSM.Down() to the NCPs (8b06a36) and, the link having been authenticated (startNCP has
-   run: Phase Network/Open), linkEnded: handleSession tears the session down right after (e9950ea).
-   LNS: only the phase changes. *)
+(* onLCPDown: FSM.Down() to the NCPs in both owners (PPPoE 8b06a36, LNS c99b5bd).  PPPoE additionally, the
+   link having been authenticated (startNCP has run: Phase Network/Open), sets linkEnded: handleSession tears
+   the session down right after (e9950ea).  The LNS owner keeps the session. *)
 Definition sess_down (fl : flags) (s : sess) : sess * list act :=
   match s_owner s with
   | PPPoE =>
       let (s', a) := sess_fsm_only fl s (s_cfg s) (down_event (s_fsm s)) in
       (mksess Ended (s_cfg s') (s_fsm s') (s_peer s') (s_addr s') (s_open s') (s_lastreq s') (s_dns s'), a)
-  | _ => (s, [])
+  | LNS => sess_fsm_only fl s (s_cfg s) (down_event (s_fsm s))
+  | Ended => (s, [])
   end.
 
 Definition is_ended (s : sess) : bool := match s_owner s with Ended => true | _ => false end.
@@ -705,9 +706,13 @@ Definition sess_step_live (fl : flags) (s : sess) (e : sev) : sess * list act :=
   | EvReauth aaa orc =>
       match s_owner s with
       | LNS =>
-          (* the LNS owner keeps the session: the address is kept unless AAA delivers a new one, startNCP again *)
-          let addr := match extract_ip fl aaa with Some x => Some x | None => s_addr s end in
-          start_ncp fl LNS (s_cfg s) (s_fsm s) (s_peer s) addr (s_open s) (s_lastreq s) (s_dns s) orc
+          (* the LNS owner keeps the session: LCP renegotiated (onLCPDown: the NCPs go Down), authentication
+             repeated; the address is kept unless AAA delivers a new one; startNCP again *)
+          let (s1, a1) := sess_down fl s in
+          let addr := match extract_ip fl aaa with Some x => Some x | None => s_addr s1 end in
+          let (s2, a2) := start_ncp fl LNS (s_cfg s1) (s_fsm s1) (s_peer s1) addr (s_open s1) (s_lastreq s1)
+                                    (s_dns s1) orc in
+          (s2, a1 ++ a2)
       | _ => sess_down fl s        (* PPPoE: the renegotiation ends the session before any new AAA answer *)
       end
   end.
